@@ -424,6 +424,9 @@ def r8_per_proof_shapes(ck, w):
     ids = {b['n']: b['i'] for p in f['params'] for b in pat_bindings(p)}
     need = {ids.get('committed_instances'), ids.get('instances')}
     ok = False
+    from ..core import alias_roots
+    al = alias_roots(f['body'])
+    need = {al.get(i, i) for i in need}
     for n in walk(f['body']):
         if n.get('k') == 'if' and taint.diverges(n['a']):
             c = peel(n['c'])
@@ -434,7 +437,7 @@ def r8_per_proof_shapes(ck, w):
                     if s_.get('k') == 'mcall' and s_.get('m') == 'len':
                         r = peel(s_['recv'])
                         if r.get('k') == 'local':
-                            roots.add(r['i'])
+                            roots.add(al.get(r['i'], r['i']))
                 if None not in need and roots == need:
                     ok = True
     ck.record('C03.R8', 'parse_trace:same-number-of-proofs', ok, 'committed_instances.len() != instances.len() is refused',
